@@ -1,4 +1,5 @@
 import DFV.Model.Field
+import DFV.Model.Transform
 /-!
 C17 model: `Field.to_xarray` / `Field.from_xarray` (discretisedfield/field.py) together with
 the constructor chain the importer runs (`Region.__init__`, `Mesh(region=…, cell=…)`, the
@@ -12,6 +13,11 @@ n-dimensional array, the attributes and a dtype tag.  Field values are never com
 on this code path, only moved, so everything is parametric in the value type `α`: the
 theorems hold verbatim for float32/float64/int/complex/bool data, NaNs included.
 Geometry is computed in `Rat` where Python computes in binary64.  Core Lean only.
+
+Also here: `mkCellNow?` (the `Mesh(region, cell)` constructor with the final `n >= 1` test that
+/repo has now), `FieldAttrs` (the attribute names of `Field`, a parameter: the `hasattr` test of
+the `vdims` setter), and `MeshOp` / `XFld.run` / `exportAfter` (in-place `field.mesh.translate`
+and `field.mesh.scale` calls before the export, through the shared `T.stepM`).
 -/
 namespace DFV.C17
 open DFV
@@ -212,13 +218,22 @@ def setTol (m : Mesh) (t : Option Rat) : Mesh :=
   | some t => { m with region := { m.region with tol := t } }
   | none => m
 
+/-- `Mesh(region=…, cell=…)` as it is now in /repo: the shared constructor model
+(`Mesh.mkCell?`: length, positivity, cell inside the region, 0.1 % divisibility, rounding)
+followed by the constructor's last test `np.less(self._n, 1).any()` → `ValueError` (a cell
+size that rounds to zero cells; reachable only ≳ 1e12 cells from the origin, where the
+tolerant containment test lets a cell larger than the region through) -/
+def mkCellNow? (r : Region) (cell : List Rat) : M Mesh :=
+  (Mesh.mkCell? r cell "").bind fun m =>
+  if m.n.any (fun k => decide (k < 1)) then .error .value else .ok m
+
 /-- region and mesh: `Region(p1, p2, dims=dims_list[, units])`, `Mesh(region, cell=cell)`,
 then the tolerance factor -/
 def meshOf {α} (xa : XA α) (cell : List Rat) : M Mesh :=
   (p1Of xa cell).bind fun p1 =>
   (p2Of xa cell).bind fun p2 =>
   (Region.mk? p1 p2 (some ((geo xa).map Axis.name)) (unitsOf xa) defaultTol).bind fun r =>
-  (Mesh.mkCell? r cell "").bind fun m =>
+  (mkCellNow? r cell).bind fun m =>
   .ok (setTol m xa.attrs.tol)
 
 /-- numpy broadcasting rule for shape `src` into `tgt` (trailing axes aligned) -/
@@ -244,13 +259,23 @@ def asArray {α} (val : NDA α) (n : List Nat) (k : Nat) : M (NDA α) :=
 def valOf {α} (xa : XA α) (k : Nat) : NDA α :=
   if k = 1 then ⟨xa.data.shape ++ [1], fun i => xa.data.get i.dropLast⟩ else xa.data
 
-/-- `vdims` setter on a fresh field (the `hasattr` name-clash test is not modelled) -/
-def vdimsSet (k : Nat) : Option (List String) → M (Option (List String))
+/-- `hasattr(self, c)` as the `vdims` setter asks it on the object under construction (`_vdims`
+is still `None`, so the dynamic component access of `__getattr__` finds nothing): is `c` the
+name of a method, property or slot of `Field`?  The set of these names is a parameter of the
+model — every theorem holds for whatever attributes the class has; the correspondence run
+instantiates it with the answers of the real class. -/
+class FieldAttrs where
+  has : String → Bool
+
+/-- `vdims` setter on a fresh field: `None` → defaults (unchecked), empty → `None`, else length,
+uniqueness, and no label may be the name of an attribute of `Field` -/
+def vdimsSet [FieldAttrs] (k : Nat) : Option (List String) → M (Option (List String))
   | none => .ok (Fld.defaultVdims k)
   | some [] => .ok none
   | some (x :: l) =>
     if (x :: l).length ≠ k then .error .value
     else if hasDup (x :: l) then .error .value
+    else if (x :: l).any FieldAttrs.has then .error .value
     else .ok (some (x :: l))
 
 /-- `vdim_mapping` setter with `None` -/
@@ -264,7 +289,7 @@ def defaultVmap (k : Nat) (dims : List String) (vdims : Option (List String)) : 
 
 /-- `cls(mesh=mesh, nvdim=nvdim, value=val, vdims=vdims, dtype=xa.values.dtype)`: value
 through `_as_array` twice, all cells valid, no unit, default mapping -/
-def fieldOf {α} (xa : XA α) (m : Mesh) (k : Nat) : M (XFld α) :=
+def fieldOf [FieldAttrs] {α} (xa : XA α) (m : Mesh) (k : Nat) : M (XFld α) :=
   (asArray (valOf xa k) m.n k).bind fun d1 =>
   (asArray d1 m.n k).bind fun d =>
   (vdimsSet k xa.vdimsCoord).bind fun vd =>
@@ -273,7 +298,7 @@ def fieldOf {α} (xa : XA α) (m : Mesh) (k : Nat) : M (XFld α) :=
              vmap := defaultVmap k m.region.dims vd, unit := none, dtype := xa.dtype }
 
 /-- `Field.from_xarray` on a DataArray -/
-def fromXA {α} (xa : XA α) : M (XFld α) :=
+def fromXA [FieldAttrs] {α} (xa : XA α) : M (XFld α) :=
   (checkNvdim xa.attrs.nvdim xa.dims).bind fun k =>
   (checkSpacing xa).bind fun _ =>
   (cellOf xa).bind fun cell =>
@@ -291,7 +316,7 @@ inductive PyObj (α : Type) where
   | other
 
 /-- `Field.from_xarray` -/
-def fromXarray {α} : PyObj α → M (XFld α)
+def fromXarray [FieldAttrs] {α} : PyObj α → M (XFld α)
   | .other => .error .type
   | .dataArray xa => fromXA xa
 
@@ -317,27 +342,59 @@ def eraseUnits {α} (sel : String → Bool) (xa : XA α) : XA α :=
   { xa with axes := xa.axes.map fun ax =>
       if sel ax.name then { ax with coord := ax.coord.map fun c => { c with units := none } } else ax }
 
+/-! ## In-place changes of the mesh a field holds (history before the export) -/
+
+/-- the in-place calls on `field.mesh` that keep the cell counts: `field.mesh.translate(v,
+inplace=True)` and `field.mesh.scale(factor, reference_point, inplace=True)` (shared model
+`T.stepM`: region and subregions are moved, everything is checked before the first assignment) -/
+inductive MeshOp where
+  | translate (v : List Rat)
+  | scale (f : T.Factor) (ref : Option (List Rat))
+
+def MeshOp.toOp : MeshOp → T.Op
+  | .translate v => .translate v true
+  | .scale f ref => .scale f ref true
+
+/-- one in-place call on the field's mesh; the field object holds the same mesh object, so it
+sees the change; a rejected call changes nothing -/
+def XFld.meshStep {α} (f : XFld α) (op : MeshOp) : XFld α :=
+  match T.stepM f.mesh op.toOp with
+  | .ok (m', _) => { f with mesh := m' }
+  | .error _ => f
+
+/-- a history of in-place calls -/
+def XFld.run {α} (f : XFld α) : List MeshOp → XFld α
+  | [] => f
+  | op :: ops => (f.meshStep op).run ops
+
+/-- `to_xarray` after a history of in-place changes of the mesh -/
+def exportAfter {α} (f : XFld α) (ops : List MeshOp) (name : PyArg := .str "field") (unit : PyArg := .none) : M (XA α) :=
+  toXarray (f.run ops) name unit
+
 /-! ## Well-formed fields (what the constructors guarantee) -/
 
 /-- what `Region.__init__`, `Mesh.__init__` and `Field.__init__` guarantee, plus: no spatial
-dimension is called `vdims` (the name the exporter reserves for the component axis) -/
-structure XFld.WF {α} (f : XFld α) : Prop where
+dimension is called `vdims` (the name the exporter reserves for the component axis).  Labels:
+as many as components, distinct, none the name of an attribute of `Field` (the setter refuses
+those; the default labels `x, y, z, v0, …` are not attributes of `Field` — checked on the real
+class by the correspondence run) -/
+structure XFld.WF [FieldAttrs] {α} (f : XFld α) : Prop where
   mesh : f.mesh.Inv
   nvdim : 1 ≤ f.nvdim
   shape : f.data.shape = f.mesh.n ++ [f.nvdim]
   novd : ¬ "vdims" ∈ f.mesh.region.dims
-  labels : ∀ l, f.vdims = some l → l.length = f.nvdim ∧ hasDup l = false
+  labels : ∀ l, f.vdims = some l → l.length = f.nvdim ∧ hasDup l = false ∧ l.any FieldAttrs.has = false
 
 /-- the label states the exporter can represent: vector fields with labels, scalar fields
 without (the label coordinate is written only for `nvdim > 1`) -/
 def LabelsStd {α} (f : XFld α) : Prop := (1 < f.nvdim → f.vdims ≠ none) ∧ (f.nvdim = 1 → f.vdims = none)
 
 /-- decidable form, evaluated by the driver on the states of real fields -/
-def XFld.wfB {α} (f : XFld α) : Bool :=
+def XFld.wfB [FieldAttrs] {α} (f : XFld α) : Bool :=
   f.mesh.invB && decide (1 ≤ f.nvdim) && decide (f.data.shape = f.mesh.n ++ [f.nvdim]) &&
   !f.mesh.region.dims.contains "vdims" &&
   (match f.vdims with
    | none => true
-   | some l => decide (l.length = f.nvdim) && !hasDup l)
+   | some l => decide (l.length = f.nvdim) && !hasDup l && !l.any FieldAttrs.has)
 
 end DFV.C17
